@@ -43,6 +43,7 @@ func eventsAlphabet() *term.Alphabet {
 			sig("d", I, I, I),
 			sig("h", B, B, B, B),
 			sig("boom", B),
+			sig("bv", I, I),
 		},
 	}
 }
@@ -64,7 +65,7 @@ func c12(r *rep.Run) {
 		max = 7
 		r.SetBudget(1800e9)
 	}
-	r.Rule = "every program up to the node bound over an alphabet with unary/binary/ternary registered operators and fast/binary/n-ary builtins x 16 optimisation subsets x {ReportEvent, Debug} x every binding incl. fetch failures x {Eval, TryEval}; events are read only AFTER the evaluation has finished and are kept and re-read after the NEXT evaluation of the same compiled program (the most retentive consumer). Oracles: result and Dump equal the event-free compilation; OP_EXEC events of registered operators equal the harness's own call log taken at call time (name, arguments, result, error, order); OP_EXEC events of builtins other than and/or equal the application sequence of reference evaluation (R1) of the Dump tree (Eval mode); every OP_EXEC event is truthful (Res/Err is what the operator gives on Params); LOOP positions strictly increase; no two events' Stack/Params slices share memory; every value on a LOOP stack was produced earlier in this evaluation. Plus: a scribbling synchronous consumer must not change results, and every consumer timing (scheduler: consumer takes each event at any callback point after its emission) sees the ground truth; the slowest consumer on channels of capacity 0..3 (takes one event only when the evaluator is blocked in its send) receives every event; contexts built by NewCtxFromVars (each single variable left unbound, undefined-variable mode off/on) give the same outcome with and without events. non-trivial = executions with at least two OP_EXEC events"
+	r.Rule = "every program up to the node bound over an alphabet with unary/binary/ternary registered operators and fast/binary/n-ary builtins x 16 optimisation subsets x {ReportEvent, Debug, both} x every binding incl. fetch failures x {Eval, TryEval}; events are read only AFTER the evaluation has finished and are kept and re-read after the NEXT evaluation of the same compiled program (the most retentive consumer). Oracles: result and Dump equal the event-free compilation; OP_EXEC events of registered operators equal the harness's own call log taken at call time (name, arguments, result, error, order); OP_EXEC events of builtins other than and/or equal the application sequence of reference evaluation (R1) of the Dump tree (Eval mode); every OP_EXEC event is truthful (Res/Err is what the operator gives on Params); LOOP positions strictly increase; no two events' Stack/Params slices share memory; every value on a LOOP stack was produced earlier in this evaluation. Plus: a scribbling synchronous consumer must not change results, and every consumer timing (scheduler: consumer takes each event at any callback point after its emission) sees the ground truth; the slowest consumer on channels of capacity 0..3 (takes one event only when the evaluator is blocked in its send) receives every event; contexts built by NewCtxFromVars (each single variable left unbound, undefined-variable mode off/on) give the same outcome with and without events. non-trivial = executions with at least two OP_EXEC events"
 	r.Assume = []string{"IsFastOp and the exact set of LOOP events are not asserted (the statement does not define them)",
 		"consumer timings below callback granularity are represented by the two extremes: reading at the very end (exhaustive) and a free-running scribbling synchronous consumer (auxiliary)"}
 	r.Cov["bounds"] = map[string]int{"max_nodes": max}
@@ -80,8 +81,8 @@ func c12(r *rep.Run) {
 		h := hs[w]
 		r.Note(w, p.Src)
 		plain := compileAll(r, h, p, optMatrix(0))
-		evented := compileAll(r, h, p, optMatrix(1, 2))
-		if len(plain) != 16 || len(evented) != 32 {
+		evented := compileAll(r, h, p, optMatrix(1, 2, 3))
+		if len(plain) != 16 || len(evented) != 48 {
 			return
 		}
 		trees := make([]*term.Term, 16)
@@ -162,6 +163,12 @@ func c12(r *rep.Run) {
 					}
 					if !drive.SameOutcome(got, want) {
 						r.Violate("result-changed", p.Src+c.o.String(), sprintf("with events the result is %s, without %s", got, want), d(nil))
+						continue
+					}
+					// a failing evaluation may hand back a value next to its error:
+					// that value, too, is part of the result
+					if got.Err != nil && want.Err != nil && fmt.Sprintf("%T:%v", got.Val, got.Val) != fmt.Sprintf("%T:%v", want.Val, want.Val) {
+						r.Violate("result-changed", p.Src+c.o.String()+"val", sprintf("with events the failing evaluation returns the value %v next to its error, without events %v", got.Val, want.Val), d(nil))
 						continue
 					}
 					for x, ev := range kept[k] {
@@ -342,8 +349,8 @@ func c12(r *rep.Run) {
 			h := hs[w]
 			r.Note(w, p.Src)
 			for _, b := range []int{8, 15, 10} {
-				var texts [3]string
-				for ev := 0; ev < 3; ev++ {
+				var texts [4]string
+				for ev := 0; ev < 4; ev++ {
 					o := drive.FromBits(b)
 					o.Events = ev
 					e, err := h.Compile(h.NewConfig(p.Vars, o), p.Src, 0)
@@ -353,9 +360,9 @@ func c12(r *rep.Run) {
 					}
 					drive.Fence(func() { texts[ev] = eval.Dump(e) })
 				}
-				atomic.AddInt64(&cmp, 2)
-				if texts[1] != texts[0] || texts[2] != texts[0] {
-					r.Violate("dump-changed", p.Src+drive.FromBits(b).String(), "enabling events changes the decompiled program", map[string]interface{}{"source": p.Src, "config": drive.FromBits(b).String(), "plain": texts[0], "report_event": texts[1], "debug": texts[2]})
+				atomic.AddInt64(&cmp, 3)
+				if texts[1] != texts[0] || texts[2] != texts[0] || texts[3] != texts[0] {
+					r.Violate("dump-changed", p.Src+drive.FromBits(b).String(), "enabling events changes the decompiled program", map[string]interface{}{"source": p.Src, "config": drive.FromBits(b).String(), "plain": texts[0], "report_event": texts[1], "debug": texts[2], "both": texts[3]})
 				}
 			}
 		})
